@@ -2,6 +2,7 @@
 #![allow(incomplete_features)]
 
 mod bridge;
+mod c15;
 mod explore;
 mod families;
 mod lockstep;
@@ -58,6 +59,7 @@ fn main() {
         "C04" => search::run_c04(&ctx),
         "C05" => poschecks::run_c05(&ctx),
         "C06" => search::run_c06(&ctx),
+        "C15" => c15::run_c15(&ctx),
         "C17" => search::run_c17(&ctx),
         "C19" => search::run_c19(&ctx),
         "C08" => poschecks::run_c08(&ctx),
